@@ -30,6 +30,7 @@ structure Ref where
 structure SCtx (κ : Type) where
   cfg : κ
   ref : Ref
+  deriving DecidableEq, Repr
 
 structure Cache (κ : Type) where
   provs : Key → Option (Prov κ Nat)
@@ -102,5 +103,43 @@ def ctxAt (ca : Cache κ) (name : Name) (n : Nat) (r : Ref) : Option (κ × Nat)
 secret of the secrets it names -/
 def specCtxAt (ca : Cache κ) (c : SCtx κ) : Option (κ × Nat) :=
   (pemSecret ca (c.ref.val, c.ref.cert)).map (fun s => (c.cfg, s))
+
+/-! ### what a listener's manager selects among -/
+
+/-- the configuration of an sds tls context of a listener (the fields outside the secret) -/
+structure LCfg where
+  verify : Bool
+  require : Bool
+  sname : Name
+  alpnCfg : Name
+  deriving DecidableEq, Repr
+
+/-- the selection view of an sds context in force: `names s` = CN and SANs of the certificate of secret `s` of the
+certificate secret called `cert` -/
+def viewCtx (names : Name → Nat → Name × List Name) (cert : Name) : Option (LCfg × Nat) → Ctx
+  | none => ⟨false, [], [], [], []⟩
+  | some (cfg, s) => ⟨true, (names cert s).1, (names cert s).2, cfg.alpnCfg, cfg.sname⟩
+
+/-- the ClientAuthType in force of an sds context (regenerated table) -/
+def authOf : Option (LCfg × Nat) → Option Int
+  | none => none
+  | some (cfg, _) => some (MosnVerif.Gen.TlsPolicy.getClientAuth cfg.require cfg.verify)
+
+/-- the contexts of a listener from position n on, each seen through `f position context` (`statics n` = the static
+context at position n) -/
+def viewFrom (statics : Nat → Ctx) (f : Nat → SCtx LCfg → Ctx) : List (Option (SCtx LCfg)) → Nat → List Ctx
+  | [], _ => []
+  | none :: r, n => statics n :: viewFrom statics f r (n + 1)
+  | some c :: r, n => f n c :: viewFrom statics f r (n + 1)
+
+/-- the providers of the manager of listener `name` as the cache has them NOW (providers are shared objects) -/
+def managerView (names : Name → Nat → Name × List Name) (statics : Nat → Ctx) (ca : Cache LCfg) (name : Name)
+    (cs : List (Option (SCtx LCfg))) : List Ctx :=
+  viewFrom statics (fun n c => viewCtx names c.ref.cert (ctxAt ca name n c.ref)) cs 0
+
+/-- the statement: every context with its OWN configuration and the latest secret of the names it uses -/
+def specView (names : Name → Nat → Name × List Name) (statics : Nat → Ctx) (ca : Cache LCfg)
+    (cs : List (Option (SCtx LCfg))) : List Ctx :=
+  viewFrom statics (fun _ c => viewCtx names c.ref.cert (specCtxAt ca c)) cs 0
 
 end MosnVerif.Model.TlsShare
